@@ -85,14 +85,26 @@ def run(ctx, chk):
             continue
         n_bcd += 1
         pr = make_prover(dec, crates)
-        # the accumulator: the local returned as the value
+        # the accumulator: the local returned as the value (first component of the Ok tuple), whatever it is called
+        acc_locals = set()
+        for i in sorted(dec.reachable(0)):
+            for st in dec.blocks[i]["stmts"]:
+                if st["s"] == "assign" and st["p"]["l"] == 0 and not st["p"]["p"]:
+                    e = pr.vx.rvalue(st["rv"], i)
+                    if e[0] == "agg" and str(e[1]).endswith("Result::Ok") and e[2] and e[2][0][0] == "agg" and e[2][0][1] == "tuple" and e[2][0][2]:
+                        v0 = e[2][0][2][0]
+                        while v0[0] == "cast":
+                            v0 = v0[1]
+                        if v0[0] == "var":
+                            acc_locals.add(v0[2])
+        is_acc = lambda x: x[0] == "var" and (x[2] in acc_locals if acc_locals else x[1] == "rv")
         plain = []
         checked = set()
         for i in sorted(dec.reachable(0)):
             for st in dec.blocks[i]["stmts"]:
                 if st["s"] == "assign" and st["rv"]["r"] == "bin" and st["rv"]["op"].replace("WithOverflow", "") in ("Mul", "Add"):
                     e = pr.vx.rvalue(st["rv"], i)
-                    if any(x[0] == "var" and x[1] == "rv" for x in walk(e)):
+                    if any(is_acc(x) for x in walk(e)):
                         plain.append(show(e)[:60])
             t = dec.blocks[i]["term"]
             if t["t"] == "call" and callee(t).endswith(("::checked_mul", "::checked_add")):
@@ -109,7 +121,7 @@ def run(ctx, chk):
             if t["t"] == "call":
                 for a in t["args"]:
                     e = pr.vx.operand(a, i)
-                    if e[0] == "var" and e[1] == "rv" and not callee(t).endswith(("::checked_mul", "::checked_add")):
+                    if is_acc(e) and not callee(t).endswith(("::checked_mul", "::checked_add")):
                         plain.append("%s(rv)" % callee(t).rsplit("::", 1)[-1])
         for cb in closures:
             cvx = VEx(cb)
